@@ -39,7 +39,14 @@ def flag_writes(m: Model):
     """All writes to `<x>.flag` in proof/tableaux.py:
     [(function-qualname, op, bits-text, guards, stmt)]; op in '=', '|=', '&=~'."""
     out = []
-    for qn, fn in astq.all_functions(m.trees[TAB]):
+    # a private helper method of Tableau called only from one method writes on that method's behalf
+    methods = [qn for qn, fn in astq.all_functions(m.trees[TAB]) if qn.startswith('Tableau.') and qn.count('.') == 1]
+    behalf = {}
+    for owner in methods:
+        for h in astq.helper_closure(m, TAB, 'Tableau', {owner}) - {owner}:
+            behalf.setdefault(h, set()).add(owner)
+    for qn0, fn in astq.all_functions(m.trees[TAB]):
+        qn = next(iter(behalf[qn0])) if len(behalf.get(qn0, ())) == 1 else qn0
         pm = None
         for t, st in astq.stores(fn, nested=False):
             if isinstance(t, ast.Attribute) and t.attr == 'flag' and astq.u(t.value) == 'self':
